@@ -48,8 +48,17 @@ func c04Callees() map[string]interface{} {
 		"c_fn":   func(f func() int) int { return 1 },
 		"c_hm":   func(m hctx.Map) int { return len(m) },
 		"c_mh":   func(m hctx.Map, h hctx.HelperContext) int { return len(m) },
+		"c_customhc": func(h customHC) string {
+			if h.HelperContext == nil {
+				return "nil"
+			}
+			return fmt.Sprint(h.HasBlock())
+		},
 	}
 }
+
+// customHC is a user type that satisfies hctx.HelperContext by embedding it.
+type customHC struct{ hctx.HelperContext }
 
 func c04Ctx() *plush.Context {
 	ctx := kindCtx()
@@ -122,6 +131,20 @@ func c04Run(b *core.B) {
 	} {
 		cell("fn-values-and-prefix", t)
 	}
+	for _, t := range []string{
+		// the same pointer-receiver method on a value, twice in one render and again in the next cell
+		"<%= v_vz.Z() %><%= v_vz.Z() %><%= v_vz.A() %>", "<%= v_strct.PLabel() %><%= v_strct.PLabel() %><%= v_strct.PSelf().PLabel() %>",
+		// entries removed from a map while it is being iterated
+		"<% for (k, v) in v_msi { v_msi[k] = nil } %><%= len(v_msi) %>", "<% for (k, v) in v_msi { v_msi[\"a\"] = nil\n v_msi[\"b\"] = nil } %><%= len(v_msi) %>", "<% for (k, v) in v_mss { v_mss[\"a\"] = nil\n v_mss[\"zz\"] = \"n\" } %>",
+		// keywords and odd tokens as hash keys
+		"<%= {let: 1} %>", "<%= {if: 1, for: 2, fn: 3} %>", "<%= {true: 1, nil: 2} %>", "<%= {1: 1, \"s\": 2, 1.5: 3} %>", "<% let h = {return: 1} %><%= h[\"return\"] %>",
+		// non-empty interface element types
+		"<% v_stringers[0] = 1 %>", "<%= v_stringers + 1 %>", "<% v_stringers[0] = v_stringer %><%= v_stringers[0] %>", "<%= v_stringers + v_stringer %>",
+		"<%= c_customhc() %>", "<%= c_customhc() { %>B<% } %>", "<%= c_customhc(nil) %>",
+		"<%= truncate(v_str_cjk) %>", "<%= truncate(v_str_cjk, {size: 30}) %>", "<%= truncate(v_str_cjk, {size: 19, trail: \"…\"}) %>",
+	} {
+		cell("special", t)
+	}
 	// pure scripts through RunScript
 	for _, sc := range []string{"let a = 1\n a = a + 1", "let a = [1,2]\n a[5] = 1", "print(nope)", "let f = fn(x) { return x }\n f()", "for (x) in 5 { }", "if (true) { return 1 }", "1 / 0", "let a = {}\n a.b = 1", ")", "", "let x = truncate(5, 5)"} {
 		idx++
@@ -180,9 +203,14 @@ func c04Run(b *core.B) {
 	}
 	// member access
 	members := []string{"Name", "N", "Tags", "M", "Next", "Any", "Missing", "hidden", "Label", "PLabel", "Label()", "PLabel()", "Add(1, 2)", "Add(1)", "Add()", "Add(1, 2, 3)", `Add("a", 2)`, "Self()", "PSelf()", "Fail()", "Missing()", "hidden()",
-		"Next.Name", "Next.Label()", "Next.PLabel()", "Next.Next.Name", "Next.Next.PLabel()", "Self().Name", "PSelf().Name", "Self().Self().Label()", "PSelf().Next.PLabel()", "Tags[0]", "Tags[5]", "M[\"k\"]", "M[\"zz\"]", "Next.Tags[0]", "Strs()[0]", "Any.Name", "Name.Name", "Len()", "String()", "Format(\"2006\")", "HTML()", "Next()"}
+		"Next.Name", "Next.Label()", "Next.PLabel()", "Next.Next.Name", "Next.Next.PLabel()", "Self().Name", "PSelf().Name", "Self().Self().Label()", "PSelf().Next.PLabel()", "Tags[0]", "Tags[5]", "M[\"k\"]", "M[\"zz\"]", "Next.Tags[0]", "Strs()[0]", "Any.Name", "Name.Name", "Len()", "String()", "Format(\"2006\")", "HTML()", "Next()", "A()", "Z()", "Z().x", "T", "T.Name"}
 	for _, r := range kn {
 		for _, m := range members {
+			if r == "v_embeds_nil" && strings.Contains(m, "(") {
+				// a method promoted from a nil embedded pointer panics in Go itself
+				// when called: that is the data's doing, not the engine's
+				continue
+			}
 			cell("member", "<%= "+r+"."+m+" %>")
 			cell("member-cond", "<% if ("+r+"."+m+") { %>T<% } %>")
 		}
@@ -287,6 +315,12 @@ func c04Run(b *core.B) {
 		cell("helper:len", `<%= len(`+a+`) + 1 %>`)
 	}
 
+	knNoEmbed := []string{}
+	for _, k := range kn {
+		if k != "v_embeds_nil" {
+			knNoEmbed = append(knNoEmbed, k)
+		}
+	}
 	// random well-formed programs with leaves from K
 	nRand := 20000
 	if b.Tier == core.Thorough {
@@ -294,7 +328,7 @@ func c04Run(b *core.B) {
 	}
 	r := b.Rng(9)
 	for i := 0; i < nRand/b.NBatches; i++ {
-		tmpl := c04RandomProgram(r, kn)
+		tmpl := c04RandomProgram(r, knNoEmbed)
 		if !b.Begin(tmpl) {
 			continue
 		}
